@@ -2,7 +2,7 @@
 
 TRUSTED_BASE = [
     "Lean 4.33.0 kernel (thorough tier: re-checked with leanchecker); axioms allowed: propext, Classical.choice, Quot.sound (audited per theorem with #print axioms on every run); no native_decide, bv_decide, sorry, admit, added axioms",
-    "the reading of the property as the statements in lean/FocaModel/Props/<id>.lean",
+    "the reading of the property as the statements in lean/FocaModel/Props/<id>.lean and, for whole-history statements, <id>H.lean",
     "tools/extract.py (translator for decision tables: can_change, is_active, message predicates, Timer::seq, Probe::succeeded/validate, Entry::cmp, set_config guard, accept_payload, framing constants) - its output is executed by the driver and therefore itself under correspondence",
     "hand model lean/FocaModel/{Members,Backlog,Codec,Foca}.lean of src/{member,broadcast,probe,lib}.rs and of the three codecs: tied to the code only by the correspondence run of this check (differential testing, bounded by the generator), not by proof",
     "harness/ (Rust): generators, canonicalisation, mirror RNG protocol, datagram grammar parser, oracles; Lean compiler/runtime for the compiled driver (not for any theorem)",
@@ -73,9 +73,9 @@ PROPS = {
         "Notifications faithfully mirror membership and connection state",
         {
             "MemberUp/MemberDown/Rename emitted exactly as the active set changes": "theorem (full): summary_matches_transition, notifications_follow_summary",
-            "num_members equals the number of active records": "theorem (full): active_records_move_with_summary, counter_tracks_active_records",
+            "num_members equals the number of active records": "theorem (full, every reachable state of the instance model — any history of public calls, inputs and RNG draws): C08H.num_members_exact_always (induction step C08H.num_members_exact_step over every model function; Proofs/Compose.lean, Proofs/MsInv.lean); per update: active_records_move_with_summary, counter_tracks_active_records",
             "Active only from idle with an active member; Idle only when none is left": "theorem (full, one call of adjust_connection_state): connection_transitions",
-            "replay of all notifications equals iter_members after every call (whole histories)": "partial: the per-step lemmas above are not yet chained into an invariant over all operations; checked by search (replay oracle) and correspondence",
+            "replay of all notifications equals iter_members after every call (whole histories)": "partial: the counter half is a whole-history theorem (C08H); that the emitted MemberUp/MemberDown sequence replays to the active set is proven per applied update (notifications_follow_summary) and checked over histories by search (replay oracle) and correspondence",
             "AccumulatingRuntime yields the same effects in the same order": "theorem over the FIFO queue model: accumulating_runtime_is_fifo; the real type is run side by side on every search history",
         },
         RULE_HIST + "search: notification replay oracle (mirror set vs iter_members/num_members after every call, state machine of Active/Idle/Defunct/Rejoin with causes) on every history, with a twin instance driven through AccumulatingRuntime.",
@@ -84,7 +84,7 @@ PROPS = {
     "C09": P(
         "One record per address; identities only move forward; own address never active",
         {
-            "never two records with one address; grows only for new addresses": "theorem (full, every RNG draw): one_record_per_address, known_address_keeps_addresses, grows_only_for_new_addresses",
+            "never two records with one address; grows only for new addresses": "theorem (full, every reachable state — any history of public calls, inputs and RNG draws): C09H.one_record_per_address_always, C09H.address_determines_record; per update, every RNG draw: one_record_per_address, known_address_keeps_addresses, grows_only_for_new_addresses",
             "identity replaced only by a conflict winner, reported as Rename": "theorem (full): replaced_only_by_conflict_winner, rename_is_notified",
             "own address never active": "theorem (full at the Members layer + apply_many normalisation): own_address_never_active, C19.own_address_updates_become_down",
             "data from own identity/address rejected before any change": "theorem (full): data_from_own_address_is_rejected",
@@ -166,7 +166,7 @@ PROPS = {
     "C15": P(
         "Dissemination accounting: updates gossiped at most max_transmissions times",
         {
-            "one update per address, the most recently accepted one": "theorem (full): one_update_per_address, enqueue_keeps_other_addresses",
+            "one update per address, the most recently accepted one": "theorem (full, every reachable state — any history, inputs, RNG and heap tie order): C15H.one_update_per_address_always (step: C15H.one_update_per_address_step; a send is exactly one fill: C15H.send_touches_backlog_by_one_fill); per enqueue: one_update_per_address, enqueue_keeps_other_addresses",
             "each appearance costs exactly one transmission; dropped at zero; at most once per datagram": "theorem (full, any tie order): each_appearance_costs_one_transmission",
             "never omits a pending update that still fits; precedence to more transmissions remaining": "theorem (full): nothing_that_fits_is_omitted, higher_priority_first, priority_order (over the generated Entry::cmp)",
             "Feed/Announce/TurnUndead/Broadcast consume nothing; no-broadcast application leaves the backlog alone; only successful applications are enqueued": "theorem (full): non_piggybacking_kinds_consume_nothing, no_broadcast_leaves_backlog_untouched, only_successful_applications_are_enqueued",
